@@ -136,13 +136,37 @@ fn is_config_file(p: &str) -> bool {
     p.ends_with("stylua.toml") || p.ends_with(".toml")
 }
 
-/// (path -> number of fs.read events by worker tasks), config files excluded.
+/// (path -> number of fs.read events), config files excluded.
 pub fn worker_reads(run: &RunResult) -> BTreeMap<String, usize> {
     let mut m = BTreeMap::new();
     for e in &run.trace.events {
         if let Some(p) = e.label.strip_prefix("fs.read $W/") {
-            if e.tid != 0 && !is_config_file(p) {
+            if !is_config_file(p) {
                 *m.entry(p.to_string()).or_insert(0) += 1;
+            }
+        }
+    }
+    m
+}
+
+/// (path -> number of times its text was handed to the formatter)
+pub fn format_calls(run: &RunResult) -> BTreeMap<String, usize> {
+    let mut m = BTreeMap::new();
+    for e in &run.trace.events {
+        if let Some(p) = e.label.strip_prefix("lib.format_code $W/") {
+            *m.entry(p.to_string()).or_insert(0) += 1;
+        }
+    }
+    m
+}
+
+/// (path -> set of tasks that read it)
+pub fn readers(run: &RunResult) -> BTreeMap<String, BTreeSet<usize>> {
+    let mut m: BTreeMap<String, BTreeSet<usize>> = BTreeMap::new();
+    for e in &run.trace.events {
+        if let Some(p) = e.label.strip_prefix("fs.read $W/") {
+            if !is_config_file(p) {
+                m.entry(p.to_string()).or_default().insert(e.tid);
             }
         }
     }
@@ -366,12 +390,12 @@ pub fn tree_oracle(property: &str, prefix: &str, inv: &Invocation, ex: &Expected
         match fe {
             None => {
                 if !unchanged {
-                    let sel = if ex.selection.kf9_candidates.contains(p) {
-                        "unselected-file-modified/slash-pattern-in-ignore-file-above-directory-argument"
-                    } else if ex.selection.kf7_candidates.contains(p) {
+                    let sel = if ex.selection.kf7_candidates.contains(p) {
                         "unselected-file-modified/user-glob-whitelist-overrides-ignore-or-hidden"
                     } else if ex.selection.kf8_candidates.contains(p) {
                         "unselected-file-modified/respect-ignores-explicit-path-non-nearest-ignore-file"
+                    } else if ex.selection.kf9_candidates.contains(p) {
+                        "unselected-file-modified/slash-pattern-in-ignore-file-above-directory-argument"
                     } else {
                         "unselected-file-modified"
                     };
@@ -446,12 +470,19 @@ pub fn tree_oracle(property: &str, prefix: &str, inv: &Invocation, ex: &Expected
     out
 }
 
-/// Each target read at most once and opened for writing at most once (by anyone).
+/// Each target is processed at most once: handed to the formatter at most once, read by at
+/// most one task, opened for writing at most once.  (Two reads by one task are not two
+/// processings — an implementation may sniff a file before formatting it.)
 pub fn once_oracle(property: &str, prefix: &str, run: &RunResult, idx: usize) -> Vec<Violation> {
     let mut out = Vec::new();
-    for (p, n) in worker_reads(run) {
+    for (p, n) in format_calls(run) {
         if n > 1 {
-            out.push(v(property, format!("{prefix}/processed-more-than-once"), format!("{p}: {n} reads"), idx));
+            out.push(v(property, format!("{prefix}/processed-more-than-once"), format!("{p}: formatted {n} times"), idx));
+        }
+    }
+    for (p, t) in readers(run) {
+        if t.len() > 1 && format_calls(run).get(&p).cloned().unwrap_or(0) <= 1 {
+            out.push(v(property, format!("{prefix}/processed-more-than-once"), format!("{p}: read by tasks {:?}", t), idx));
         }
     }
     for (p, n) in write_opens(run) {
@@ -476,12 +507,12 @@ pub fn selection_oracle(property: &str, inv: &Invocation, world: &World, ex: &Ex
     let mut extra = Vec::new();
     for p in reads.keys() {
         if !sel.contains(p) {
-            if ex.selection.kf9_candidates.contains(p) {
-                extra_kf9.push(p.clone());
-            } else if ex.selection.kf7_candidates.contains(p) {
+            if ex.selection.kf7_candidates.contains(p) {
                 extra_kf7.push(p.clone());
             } else if ex.selection.kf8_candidates.contains(p) {
                 extra_kf8.push(p.clone());
+            } else if ex.selection.kf9_candidates.contains(p) {
+                extra_kf9.push(p.clone());
             } else {
                 extra.push(p.clone());
             }
@@ -493,12 +524,12 @@ pub fn selection_oracle(property: &str, inv: &Invocation, world: &World, ex: &Ex
         if let Reported::Files(got) = parse_reported(inv, world, &run.stdout) {
             for g in got {
                 if g != "stdin" && !sel.contains(&g) && !extra.contains(&g) && !extra_kf7.contains(&g) && !extra_kf8.contains(&g) && !extra_kf9.contains(&g) {
-                    if ex.selection.kf9_candidates.contains(&g) {
-                        extra_kf9.push(g);
-                    } else if ex.selection.kf7_candidates.contains(&g) {
+                    if ex.selection.kf7_candidates.contains(&g) {
                         extra_kf7.push(g);
                     } else if ex.selection.kf8_candidates.contains(&g) {
                         extra_kf8.push(g);
+                    } else if ex.selection.kf9_candidates.contains(&g) {
+                        extra_kf9.push(g);
                     } else {
                         extra.push(g);
                     }
